@@ -1,3 +1,563 @@
-(* Heap — see docs/ for the plan of this file. *)
+(* Heap — the transaction code of tree.go at OBJECT level (C03).
+
+   Tree.v models insert / update / remove / truncate on pure trees: a snapshot
+   is a value and cannot change by construction.  The property "a published
+   routing state never changes" is about ALIASING in the Go code, so here the
+   same code is transliterated over an explicit heap:
+
+     - node objects   addr -> {key; route; arr}     (arr = identity of the children backing array)
+     - array objects  addr -> list addr              (children arrays AND roots arrays; separate
+                                                      objects, so that sharing is expressible)
+     - one bump allocator (s_next) for both kinds;
+     - clone            allocates a node and a COPY of its children array      (node.go:744-749)
+       newNodeFromRef   allocates a node SHARING the given array               (node.go:681-702)
+       newNode          SORTS the given array IN PLACE, then newNodeFromRef    (node.go:661-679)
+       updateEdge       overwrites ONE SLOT of a children array in place       (node.go:727-742)
+       updateRoot / addRoot / removeRoot / truncate  copy the roots array      (tree.go:560-634)
+     - the `writable` LRU (tree.go:47-55,100-106; internal/simplelru) is a list of
+       addresses (most recent first) with an ARBITRARY eviction function
+       [evict clock w] applied after every access (Get and Add); the theorems
+       only assume that eviction removes elements, so they cover capacity 4096
+       with the LRU policy (instance [lru_evict]) and every other policy/schedule.
+
+   Derived node fields (childKeys, paramChildIndex, wildcardChildIndex, params,
+   inode chain) are functions of key/route/children exactly as in Node.v; the
+   inode objects share the children array of their owner and are never written,
+   they are not represented.  An empty/nil children slice is an (unshared, never
+   written) empty array object; the correspondence check ignores the identity
+   of empty arrays (Go has none: ChildrenAddr = 0).
+
+   Control flow follows the Go code statement by statement (p, pp, ppp, the
+   `n.key = method` root patch, the t.cache flag).  Nil dereferences, failed
+   index expressions and the explicit panics are outcome [Panic]; the two
+   bounded traversals (route listing of a subtree) take fuel, outcome [Oof]. *)
+From Coq Require Import FMapPositive.
 From FoxBase Require Import Bytes.
-From FoxRoute Require Import Node Lookup Spec Tree.
+From FoxRoute Require Import Node Tree.
+
+Module PM := PositiveMap.
+Definition addr := positive.
+
+Record nobj := { n_key : bytes; n_route : option route; n_arr : addr }.
+
+(* heap + the fields of the current tXn (tree.go:47-55) *)
+Record st := mkst {
+  s_nodes : PM.t nobj; s_arrs : PM.t (list addr); s_next : addr;
+  s_root : addr;                (* t.root: address of the roots array *)
+  s_size : Z; s_maxp : nat; s_depth : nat; s_cache : bool;
+  s_wr : list addr;             (* t.writable, most recently used first; [] = nil or empty *)
+  s_clock : N }.                (* number of accesses to t.writable so far (index into the eviction schedule) *)
+
+Inductive res (A : Type) := Ok (a : A) | Panic | Oof.
+Arguments Ok {A} a. Arguments Panic {A}. Arguments Oof {A}.
+
+Definition M (A : Type) := st -> res (A * st).
+Definition ret {A} (a : A) : M A := fun s => Ok (a, s).
+Definition bind {A B} (m : M A) (k : A -> M B) : M B :=
+  fun s => match m s with Ok (a, s') => k a s' | Panic => Panic | Oof => Oof end.
+Definition panic {A} : M A := fun _ => Panic.
+Definition oof {A} : M A := fun _ => Oof.
+
+Notation "x <- m ;; k" := (bind m (fun x => k)) (at level 61, m at next level, right associativity).
+Notation "' p <- m ;; k" := (bind m (fun x => let p := x in k)) (at level 61, p pattern, m at next level, right associativity).
+Notation "m ;;; k" := (bind m (fun _ => k)) (at level 61, right associativity).
+
+Definition opt_get {A} (o : option A) : M A := match o with Some a => ret a | None => panic end.
+
+(* ---------- state setters ---------- *)
+Definition set_heap (s : st) (n : PM.t nobj) (a : PM.t (list addr)) (nx : addr) : st :=
+  mkst n a nx (s_root s) (s_size s) (s_maxp s) (s_depth s) (s_cache s) (s_wr s) (s_clock s).
+Definition set_root_st (s : st) (r : addr) : st :=
+  mkst (s_nodes s) (s_arrs s) (s_next s) r (s_size s) (s_maxp s) (s_depth s) (s_cache s) (s_wr s) (s_clock s).
+Definition set_meta (s : st) (sz : Z) (mp d : nat) : st :=
+  mkst (s_nodes s) (s_arrs s) (s_next s) (s_root s) sz mp d (s_cache s) (s_wr s) (s_clock s).
+Definition set_wr (s : st) (w : list addr) (c : N) : st :=
+  mkst (s_nodes s) (s_arrs s) (s_next s) (s_root s) (s_size s) (s_maxp s) (s_depth s) (s_cache s) w c.
+
+(* ---------- heap primitives ---------- *)
+Definition alloc_node (o : nobj) : M addr := fun s =>
+  Ok (s_next s, set_heap s (PM.add (s_next s) o (s_nodes s)) (s_arrs s) (Pos.succ (s_next s))).
+Definition alloc_arr (l : list addr) : M addr := fun s =>
+  Ok (s_next s, set_heap s (s_nodes s) (PM.add (s_next s) l (s_arrs s)) (Pos.succ (s_next s))).
+Definition get_node (a : addr) : M nobj := fun s =>
+  match PM.find a (s_nodes s) with Some o => Ok (o, s) | None => Panic end.
+Definition get_arr (a : addr) : M (list addr) := fun s =>
+  match PM.find a (s_arrs s) with Some l => Ok (l, s) | None => Panic end.
+
+Fixpoint set_nth {A} (l : list A) (i : nat) (v : A) : list A :=
+  match l, i with
+  | _ :: r, O => v :: r
+  | x :: r, S i => x :: set_nth r i v
+  | [], _ => []
+  end.
+Fixpoint del_nth {A} (l : list A) (i : nat) : list A :=
+  match l, i with
+  | _ :: r, O => r
+  | x :: r, S i => x :: del_nth r i
+  | [], _ => []
+  end.
+
+(* IN-PLACE WRITES: the only three ways an existing object changes *)
+(* a[i] = v *)
+Definition write_slot (a : addr) (i : nat) (v : addr) : M unit := fun s =>
+  match PM.find a (s_arrs s) with
+  | Some l => if Nat.ltb i (List.length l)
+              then Ok (tt, set_heap s (s_nodes s) (PM.add a (set_nth l i v) (s_arrs s)) (s_next s))
+              else Panic
+  | None => Panic
+  end.
+(* the contents of the backing array a are rearranged (sort; the in-place shift of truncate) *)
+Definition write_arr (a : addr) (l : list addr) : M unit := fun s =>
+  match PM.find a (s_arrs s) with
+  | Some _ => Ok (tt, set_heap s (s_nodes s) (PM.add a l (s_arrs s)) (s_next s))
+  | None => Panic
+  end.
+(* n.key = k *)
+Definition set_key (a : addr) (k : bytes) : M unit := fun s =>
+  match PM.find a (s_nodes s) with
+  | Some o => Ok (tt, set_heap s (PM.add a {| n_key := k; n_route := n_route o; n_arr := n_arr o |} (s_nodes s)) (s_arrs s) (s_next s))
+  | None => Panic
+  end.
+
+(* ---------- tXn fields ---------- *)
+Definition get_root : M addr := fun s => Ok (s_root s, s).
+Definition set_root (r : addr) : M unit := fun s => Ok (tt, set_root_st s r).
+Definition get_cache : M bool := fun s => Ok (s_cache s, s).
+Definition bump_size (d : Z) : M unit := fun s => Ok (tt, set_meta s (s_size s + d)%Z (s_maxp s) (s_depth s)).
+Definition put_size (z : Z) : M unit := fun s => Ok (tt, set_meta s z (s_maxp s) (s_depth s)).
+Definition upd_maxp (m : nat) : M unit := fun s => Ok (tt, set_meta s (s_size s) (Nat.max (s_maxp s) m) (s_depth s)).
+Definition upd_depth (d : nat) : M unit := fun s => Ok (tt, set_meta s (s_size s) (s_maxp s) (Nat.max (s_depth s) d)).
+
+Definition rm (a : addr) (l : list addr) : list addr := filter (fun x => negb (Pos.eqb x a)) l.
+(* Some l' = a occurs in l and l' is l without its first occurrence (one pass; hits are near the front) *)
+Fixpoint take_out (a : addr) (l : list addr) : option (list addr) :=
+  match l with
+  | [] => None
+  | x :: r => if Pos.eqb x a then Some r
+              else match take_out a r with Some r' => Some (x :: r') | None => None end
+  end.
+
+Section Model.
+(* eviction schedule: what remains of the list after the c-th access *)
+Variable evict : N -> list addr -> list addr.
+
+(* t.writable.Get(p): a hit moves p to the front *)
+Definition w_get (a : addr) : M bool := fun s =>
+  match take_out a (s_wr s) with
+  | Some w' => Ok (true, set_wr s (evict (s_clock s) (a :: w')) (N.succ (s_clock s)))
+  | None => Ok (false, set_wr s (evict (s_clock s) (s_wr s)) (N.succ (s_clock s)))
+  end.
+(* t.writable.Add(n, nil) *)
+Definition w_add (a : addr) : M unit := fun s =>
+  Ok (tt, set_wr s (evict (s_clock s) (a :: match take_out a (s_wr s) with Some w' => w' | None => s_wr s end)) (N.succ (s_clock s))).
+(* t.writable = nil *)
+Definition w_reset : M unit := fun s => Ok (tt, set_wr s [] (s_clock s)).
+Definition w_add_if_cache (a : addr) : M unit := c <- get_cache ;; if c then w_add a else ret tt.
+
+(* ---------- node helpers ---------- *)
+Definition key_of (a : addr) : M bytes := o <- get_node a ;; ret (n_key o).
+Fixpoint keys_of (l : list addr) : M (list bytes) :=
+  match l with
+  | [] => ret []
+  | a :: r => k <- key_of a ;; ks <- keys_of r ;; ret (k :: ks)
+  end.
+
+(* linearSearch / binarySearch in childKeys: index of the child whose key starts with c *)
+Fixpoint find_idx_from (i : nat) (c : ascii) (ks : list bytes) : option nat :=
+  match ks with
+  | [] => None
+  | k :: r => if starts_with c k then Some i else find_idx_from (S i) c r
+  end.
+
+(* n.getEdge(c)  (node.go:712-725) *)
+Definition get_edge (n : addr) (c : ascii) : M (option addr) :=
+  o <- get_node n ;; ch <- get_arr (n_arr o) ;; ks <- keys_of ch ;;
+  match find_idx_from 0 c ks with
+  | Some i => ret (nth_error ch i)
+  | None => ret None
+  end.
+
+(* n.updateEdge(nd)  (node.go:727-742): the slot is found by the first byte of nd.key *)
+Definition update_edge (n nd : addr) : M unit :=
+  k <- key_of nd ;;
+  match k with
+  | [] => panic
+  | c :: _ =>
+      o <- get_node n ;; ch <- get_arr (n_arr o) ;; ks <- keys_of ch ;;
+      match find_idx_from 0 c ks with
+      | Some i => write_slot (n_arr o) i nd
+      | None => panic
+      end
+  end.
+
+(* n.clone()  (node.go:744-749): new node, COPIED children array *)
+Definition clone (n : addr) : M addr :=
+  o <- get_node n ;; ch <- get_arr (n_arr o) ;;
+  a <- alloc_arr ch ;;
+  alloc_node {| n_key := n_key o; n_route := n_route o; n_arr := a |}.
+
+(* newNodeFromRef: new node SHARING the array *)
+Definition new_node_from_ref (k : bytes) (r : option route) (arr : addr) : M addr :=
+  alloc_node {| n_key := k; n_route := r; n_arr := arr |}.
+
+(* slices.SortFunc(children, by key) as insertion sort on (key, address) pairs; keys are
+   distinct wherever the code sorts, so every sorting algorithm gives this result *)
+(* Node.bytes_ltb with the byte comparison done in N (binary) instead of nat (unary);
+   HeapProofs.key_ltb_eq shows they are the same function *)
+Fixpoint key_ltb (a b : bytes) : bool :=
+  match a, b with
+  | _, [] => false
+  | [], _ :: _ => true
+  | x :: a', y :: b' =>
+      let nx := N_of_ascii x in let ny := N_of_ascii y in
+      if N.ltb nx ny then true else if N.ltb ny nx then false else key_ltb a' b'
+  end.
+Fixpoint ins_sorted (x : bytes * addr) (l : list (bytes * addr)) : list (bytes * addr) :=
+  match l with
+  | [] => [x]
+  | m :: r => if key_ltb (fst m) (fst x) then m :: ins_sorted x r else x :: l
+  end.
+Definition sort_pairs (l : list (bytes * addr)) : list (bytes * addr) := fold_right ins_sorted [] l.
+
+(* newNode (node.go:661-679): sorts the array it is given IN PLACE *)
+Definition new_node (k : bytes) (r : option route) (arr : addr) : M addr :=
+  ch <- get_arr arr ;; ks <- keys_of ch ;;
+  write_arr arr (map snd (sort_pairs (combine ks ch))) ;;;
+  new_node_from_ref k r arr.
+
+(* ---------- roots ---------- *)
+Fixpoint find_eq_from (i : nat) (m : bytes) (ks : list bytes) : option nat :=
+  match ks with
+  | [] => None
+  | k :: r => if bytes_eqb k m then Some i else find_eq_from (S i) m r
+  end.
+
+(* roots.methodIndex (node.go:18-37) on the roots array at ra *)
+Definition method_index_at (ra : addr) (m : bytes) : M (option nat) :=
+  if bytes_eqb m m_get then ret (Some 0)
+  else if bytes_eqb m m_post then ret (Some 1)
+  else if bytes_eqb m m_put then ret (Some 2)
+  else if bytes_eqb m m_delete then ret (Some 3)
+  else rs <- get_arr ra ;; ks <- keys_of (skipn 4 rs) ;; ret (find_eq_from 4 m ks).
+Definition h_method_index (m : bytes) : M (option nat) := ra <- get_root ;; method_index_at ra m.
+Definition get_roots : M (list addr) := ra <- get_root ;; get_arr ra.
+
+(* addRoot / updateRoot / removeRoot (tree.go:560-595): always a NEW roots array *)
+Definition add_root (n : addr) : M unit :=
+  rs <- get_roots ;; a <- alloc_arr (rs ++ [n]) ;; set_root a.
+Definition update_root (n : addr) : M bool :=
+  k <- key_of n ;; idx <- h_method_index k ;;
+  match idx with
+  | None => ret false
+  | Some i => rs <- get_roots ;;
+      if Nat.ltb i (List.length rs) then a <- alloc_arr (set_nth rs i n) ;; set_root a ;;; ret true
+      else panic
+  end.
+Definition remove_root (m : bytes) : M bool :=
+  idx <- h_method_index m ;;
+  match idx with
+  | None => ret false
+  | Some i => rs <- get_roots ;;
+      if Nat.ltb i (List.length rs) then a <- alloc_arr (del_nth rs i) ;; set_root a ;;; ret true
+      else panic
+  end.
+
+(* ---------- copyOnWriteSearch (tree.go:99-170) ---------- *)
+Record sres := { r_matched : addr; r_p : option addr; r_pp : option addr; r_ppp : option addr;
+                 r_rest : bytes;      (* path[charsMatched:] *)
+                 r_from : bytes;      (* path[charsMatched-charsMatchedInNodeFound:] *)
+                 r_cm : nat; r_cmin : nat; r_depth : nat }.
+
+(* the inner for loop: (charsMatchedInNodeFound, remaining path, break STOP taken) *)
+Fixpoint match_key (key rest : bytes) : nat * bytes * bool :=
+  match rest with
+  | [] => (0, [], false)
+  | c :: rest' =>
+    match key with
+    | [] => (0, rest, false)
+    | k :: key' => if Ascii.eqb k c then let '(n, r, stop) := match_key key' rest' in (S n, r, stop)
+                   else (0, rest, true)
+    end
+  end.
+
+Fixpoint cow_loop (fuel : nat) (cur : addr) (p pp ppp : option addr) (rest from : bytes) (cm cmin depth : nat) : M sres :=
+  let stop := ret {| r_matched := cur; r_p := p; r_pp := pp; r_ppp := ppp; r_rest := rest; r_from := from;
+                     r_cm := cm; r_cmin := cmin; r_depth := depth |} in
+  match fuel with O => oof | S f =>
+  match rest with
+  | [] => stop
+  | c :: _ =>
+    next <- get_edge cur c ;;
+    match next with
+    | None => stop
+    | Some nx =>
+        (* depth++; ppp = pp; pp = p; p = current *)
+        hit <- w_get cur ;;
+        p' <- (if hit then ret cur
+               else cp <- clone cur ;;
+                    w_add_if_cache cp ;;;
+                    (match p with None => update_root cp ;;; ret tt | Some q => update_edge q cp end) ;;;
+                    ret cp) ;;
+        (* current = next *)
+        key <- key_of nx ;;
+        let '(n, rest', brk) := match_key key rest in
+        if brk then ret {| r_matched := nx; r_p := Some p'; r_pp := p; r_ppp := pp; r_rest := rest'; r_from := rest;
+                           r_cm := cm + n; r_cmin := n; r_depth := S depth |}
+        else cow_loop f nx (Some p') p pp rest' rest (cm + n) n (S depth)
+    end
+  end end.
+
+Definition cow_search (rootNode : addr) (path : bytes) : M sres :=
+  cow_loop (S (List.length path)) rootNode None None None path path 0 0 0.
+
+Inductive rtype := ExactMatch | IncToEnd | IncToMiddle | KeyEndMidEdge.
+
+(* searchResult.classify (tree.go:728-747); None = panic("cannot classify") *)
+Definition classify (r : sres) (klen : nat) : option rtype :=
+  match r_rest r with
+  | [] => if Nat.eqb (r_cmin r) klen then Some ExactMatch
+          else if Nat.ltb (r_cmin r) klen then Some KeyEndMidEdge else None
+  | _ :: _ => if Nat.eqb (r_cmin r) klen || match r_p r with None => true | Some _ => false end then Some IncToEnd
+              else if Nat.ltb (r_cmin r) klen then Some IncToMiddle else None
+  end.
+Definition is_exact (r : sres) (klen : nat) : bool :=
+  match r_rest r with [] => Nat.eqb (r_cmin r) klen | _ => false end.
+
+(* ---------- tXn.insert (tree.go:173-395) ---------- *)
+Inductive ins_out := IOk | IExist (pat : bytes) | IConflict (at_node : addr).
+
+(* the node(s) for a brand new suffix (host/path split rule, tree.go:275-286, 360-372) *)
+Definition h_new_leaf (ri : rinfo) (cm : nat) (suffix : bytes) : M (addr * nat) :=
+  if Nat.ltb 0 (ri_hostsplit ri) && Nat.ltb cm (ri_hostsplit ri) then
+    let h := ri_hostsplit ri - cm in
+    e <- alloc_arr [] ;; pc <- new_node (skipn h suffix) (Some (ri_route ri)) e ;;
+    a <- alloc_arr [pc] ;; c <- new_node (firstn h suffix) None a ;; ret (c, 2)
+  else e <- alloc_arr [] ;; c <- new_node suffix (Some (ri_route ri)) e ;; ret (c, 1).
+
+Definition h_insert (method : bytes) (ri : rinfo) : M ins_out :=
+  idx <- h_method_index method ;;
+  rootNode <- (match idx with
+               | None => e <- alloc_arr [] ;;
+                         rn <- alloc_node {| n_key := method; n_route := None; n_arr := e |} ;;
+                         add_root rn ;;; ret rn
+               | Some i => rs <- get_roots ;; opt_get (nth_error rs i)
+               end) ;;
+  let path := rpat (ri_route ri) in
+  r <- cow_search rootNode path ;;
+  mo <- get_node (r_matched r) ;;
+  match classify r (List.length (n_key mo)) with
+  | None => panic
+  | Some ExactMatch =>
+      match n_route mo with
+      | Some rt => ret (IExist (rpat rt))
+      | None =>
+          n <- new_node_from_ref (n_key mo) (Some (ri_route ri)) (n_arr mo) ;;
+          bump_size 1 ;;; upd_maxp (ri_pslen ri) ;;;
+          p <- opt_get (r_p r) ;; update_edge p n ;;; ret IOk
+      end
+  | Some KeyEndMidEdge =>
+      let cp := common_prefix (r_from r) (n_key mo) in
+      let suffix := skipn (List.length cp) (n_key mo) in
+      child <- new_node_from_ref suffix (n_route mo) (n_arr mo) ;;
+      a <- alloc_arr [child] ;;
+      parent <- new_node cp (Some (ri_route ri)) a ;;
+      bump_size 1 ;;; upd_maxp (ri_pslen ri) ;;; upd_depth (r_depth r + 1) ;;;
+      p <- opt_get (r_p r) ;; update_edge p parent ;;; ret IOk
+  | Some IncToEnd =>
+      '(child, add) <- h_new_leaf ri (r_cm r) (r_rest r) ;;
+      ch <- get_arr (n_arr mo) ;;
+      a <- alloc_arr (ch ++ [child]) ;;          (* getEdges() copy + append *)
+      n <- new_node (n_key mo) (n_route mo) a ;;
+      bump_size 1 ;;; upd_depth (r_depth r + add) ;;; upd_maxp (ri_pslen ri) ;;;
+      if Pos.eqb (r_matched r) rootNode then
+        set_key n method ;;; w_add_if_cache n ;;; update_root n ;;; ret IOk
+      else p <- opt_get (r_p r) ;; update_edge p n ;;; ret IOk
+  | Some IncToMiddle =>
+      let cp := common_prefix (r_from r) (n_key mo) in
+      if prefix_conflict (Nat.leb (r_cm r) (ri_hostsplit ri)) cp then ret (IConflict (r_matched r))
+      else
+        let suffix := skipn (List.length cp) (n_key mo) in
+        '(n1, add) <- h_new_leaf ri (r_cm r) (r_rest r) ;;
+        n2 <- new_node_from_ref suffix (n_route mo) (n_arr mo) ;;
+        a <- alloc_arr [n1; n2] ;;
+        n3 <- new_node cp None a ;;
+        bump_size 1 ;;; upd_depth (r_depth r + add) ;;; upd_maxp (ri_pslen ri) ;;;
+        p <- opt_get (r_p r) ;; update_edge p n3 ;;; ret IOk
+  end.
+
+(* ---------- tXn.update (tree.go:398-423); false = ErrRouteNotFound ---------- *)
+Definition h_update (method : bytes) (ri : rinfo) : M bool :=
+  idx <- h_method_index method ;;
+  match idx with
+  | None => ret false
+  | Some i =>
+      rs <- get_roots ;; rn <- opt_get (nth_error rs i) ;;
+      r <- cow_search rn (rpat (ri_route ri)) ;;
+      mo <- get_node (r_matched r) ;;
+      match is_exact r (List.length (n_key mo)), n_route mo with
+      | true, Some _ =>
+          n <- new_node_from_ref (n_key mo) (Some (ri_route ri)) (n_arr mo) ;;
+          p <- opt_get (r_p r) ;; update_edge p n ;;; ret true
+      | _, _ => ret false
+      end
+  end.
+
+(* ---------- tXn.remove (tree.go:426-557) ---------- *)
+(* recreateParentEdge: a new slice with the children of parent minus matched *)
+Definition recreate_parent_edge (parent matched : addr) : M addr :=
+  o <- get_node parent ;; ch <- get_arr (n_arr o) ;;
+  let l := rm matched ch in
+  if Nat.eqb (S (List.length l)) (List.length ch) then alloc_arr l else panic.
+
+Definition is_some {A} (o : option A) : bool := match o with Some _ => true | None => false end.
+
+(* the tail shared by the two "rebuilt parent" branches when that parent is the method root *)
+Definition finish_root (method : bytes) (parent : addr) : M bool :=
+  po <- get_node parent ;; pch <- get_arr (n_arr po) ;;
+  if is_nil pch && is_removable method then remove_root method
+  else set_key parent method ;;; w_add_if_cache parent ;;; update_root parent ;;; ret true.
+
+(* a node for [edges] under the key/route of node o: merged with its single child, or newNode *)
+Definition rebuild_parent (o : nobj) (edges : addr) (may_merge : bool) (slash_rule : bool) : M addr :=
+  el <- get_arr edges ;;
+  match el with
+  | [c] =>
+      co <- get_node c ;;
+      if may_merge && negb (is_some (n_route o)) && negb (slash_rule && starts_with "/"%char (n_key co))
+      then new_node_from_ref (n_key o ++ n_key co) (n_route co) (n_arr co)
+      else new_node (n_key o) (n_route o) edges
+  | _ => new_node (n_key o) (n_route o) edges
+  end.
+
+(* result: Some r = (matched, true) with matched.route = r; None = (nil/matched, false) *)
+Definition h_remove (method path : bytes) : M (option route) :=
+  idx <- h_method_index method ;;
+  match idx with
+  | None => ret None
+  | Some i =>
+      rs <- get_roots ;; rn <- opt_get (nth_error rs i) ;;
+      r <- cow_search rn path ;;
+      mo <- get_node (r_matched r) ;;
+      match is_exact r (List.length (n_key mo)), n_route mo with
+      | true, Some rt =>
+          bump_size (-1) ;;;
+          mch <- get_arr (n_arr mo) ;;
+          match mch with
+          | _ :: _ :: _ =>
+              n <- new_node_from_ref (n_key mo) None (n_arr mo) ;;
+              p <- opt_get (r_p r) ;; update_edge p n ;;; ret (Some rt)
+          | [c] =>
+              co <- get_node c ;;
+              n <- new_node_from_ref (n_key mo ++ n_key co) (n_route co) (n_arr co) ;;
+              p <- opt_get (r_p r) ;; update_edge p n ;;; ret (Some rt)
+          | [] =>
+              p <- opt_get (r_p r) ;; po <- get_node p ;;
+              pe <- recreate_parent_edge p (r_matched r) ;;
+              rs' <- get_roots ;; cur_root <- opt_get (nth_error rs' i) ;;
+              let parent_is_root := Pos.eqb p cur_root in
+              pel <- get_arr pe ;;
+              if is_nil pel && negb (is_some (n_route po)) && negb parent_is_root then
+                (* p was the result of a hostname/path split: drop it from pp *)
+                pp <- opt_get (r_pp r) ;; ppo <- get_node pp ;;
+                pe2 <- recreate_parent_edge pp p ;;
+                let pp_is_root := Pos.eqb pp cur_root in
+                parent <- rebuild_parent ppo pe2 (negb pp_is_root) true ;;
+                if pp_is_root then b <- finish_root method parent ;; ret (if b then Some rt else None)
+                else ppp <- opt_get (r_ppp r) ;; update_edge ppp parent ;;; ret (Some rt)
+              else
+                parent <- rebuild_parent po pe (negb parent_is_root) false ;;
+                if parent_is_root then b <- finish_root method parent ;; ret (if b then Some rt else None)
+                else pp <- opt_get (r_pp r) ;; update_edge pp parent ;;; ret (Some rt)
+          end
+      | _, _ => ret None
+      end
+  end.
+
+(* ---------- tXn.truncate (tree.go:597-634) ---------- *)
+(* rawIterator below a node: the routes in DFS pre-order (countRoutes, getRouteConflict) *)
+Fixpoint h_routes (fuel : nat) (a : addr) : M (list route) :=
+  match fuel with O => oof | S f =>
+    o <- get_node a ;; ch <- get_arr (n_arr o) ;;
+    rs <- (fix go (l : list addr) : M (list route) :=
+             match l with
+             | [] => ret []
+             | x :: t => r <- h_routes f x ;; more <- go t ;; ret (r ++ more)
+             end) ch ;;
+    ret ((match n_route o with Some r => [r] | None => [] end) ++ rs)
+  end.
+
+Definition new_empty_root (k : bytes) : M addr :=
+  e <- alloc_arr [] ;; alloc_node {| n_key := k; n_route := None; n_arr := e |}.
+
+Fixpoint trunc_loop (fuel : nat) (nr : addr) (methods : list bytes) : M unit :=
+  match methods with
+  | [] => ret tt
+  | m :: more =>
+      idx <- method_index_at nr m ;;
+      match idx with
+      | None => trunc_loop fuel nr more
+      | Some i =>
+          l <- get_arr nr ;; root <- opt_get (nth_error l i) ;;
+          rts <- h_routes fuel root ;;
+          bump_size (- Z.of_nat (List.length rts)) ;;;
+          (if negb (is_removable m)
+           then nn <- new_empty_root (nth i common_verbs []) ;; write_slot nr i nn     (* nr[idx] = new(node) *)
+           else write_arr nr (del_nth l i)) ;;;                                         (* nr = append(nr[:idx], nr[idx+1:]...) *)
+          trunc_loop fuel nr more
+      end
+  end.
+
+Fixpoint new_empty_roots (ks : list bytes) : M (list addr) :=
+  match ks with
+  | [] => ret []
+  | k :: r => a <- new_empty_root k ;; more <- new_empty_roots r ;; ret (a :: more)
+  end.
+
+Definition h_truncate (fuel : nat) (methods : list bytes) : M unit :=
+  match methods with
+  | [] => l <- new_empty_roots common_verbs ;; nr <- alloc_arr l ;; set_root nr ;;; put_size 0
+  | _ => rs <- get_roots ;; nr <- alloc_arr rs ;;      (* nr := make(roots, len); copy(nr, t.root) *)
+         trunc_loop fuel nr methods ;;; set_root nr
+  end.
+
+(* ---------- snapshot / clone / commit (tree.go:57-95) ---------- *)
+Definition h_snapshot : M addr := w_reset ;;; get_root.     (* also tXn.clone(): the clone shares t.root *)
+
+End Model.
+
+(* the policy of internal/simplelru with capacity cap: drop the least recently used *)
+Definition lru_evict (cap : nat) : N -> list addr -> list addr := fun _ w => firstn cap w.
+
+(* ---------- abs: reading the pure tree out of the heap ---------- *)
+Definition find_node (s : st) (a : addr) := PM.find a (s_nodes s).
+Definition find_arr (s : st) (a : addr) := PM.find a (s_arrs s).
+
+Fixpoint abs_node (fuel : nat) (s : st) (a : addr) : option node :=
+  match fuel with O => None | S f =>
+    match find_node s a with
+    | None => None
+    | Some o =>
+      match find_arr s (n_arr o) with
+      | None => None
+      | Some ch =>
+        match (fix go (l : list addr) : option (list node) :=
+                 match l with
+                 | [] => Some []
+                 | x :: t => match abs_node f s x, go t with Some n, Some r => Some (n :: r) | _, _ => None end
+                 end) ch with
+        | Some kids => Some (Node (n_key o) (n_route o) kids)
+        | None => None
+        end
+      end
+    end
+  end.
+
+Fixpoint abs_list (fuel : nat) (s : st) (l : list addr) : option (list node) :=
+  match l with
+  | [] => Some []
+  | x :: t => match abs_node fuel s x, abs_list fuel s t with Some n, Some r => Some (n :: r) | _, _ => None end
+  end.
+
+(* abs of a roots array *)
+Definition abs (fuel : nat) (s : st) (ra : addr) : option (list node) :=
+  match find_arr s ra with Some l => abs_list fuel s l | None => None end.
